@@ -80,7 +80,11 @@ func runRump(c []string) (res string) {
 		var lines []string
 		if c[5] != "kf=" {
 			for _, h := range strings.Split(c[5][3:], ",") {
-				lines = append(lines, string(unhex(h)))
+				if h == "-" {
+					lines = append(lines, "") // a blank line
+				} else {
+					lines = append(lines, string(unhex(h)))
+				}
 			}
 		}
 		kf := filepath.Join(dir, "keys.txt")
